@@ -75,7 +75,9 @@ type ctxKey struct{}
 // ---- generation -----------------------------------------------------------------------------------
 
 var timeFormats = []string{"", zerolog.TimeFormatUnixMs, zerolog.TimeFormatUnixMicro, zerolog.TimeFormatUnixNano,
-	"2006-01-02T15:04:05Z07:00", "2006-01-02T15:04:05.999999999Z07:00", "Mon Jan _2 15:04:05 MST 2006", "2006-01-02 15:04:05.000000", "3:04PM"}
+	"2006-01-02T15:04:05Z07:00", "2006-01-02T15:04:05.999999999Z07:00", "Mon Jan _2 15:04:05 MST 2006", "2006-01-02 15:04:05.000000", "3:04PM",
+	// layouts with literal non-ASCII text and a byte that is not valid UTF-8 (neither quote, backslash nor control character)
+	"2006年01月02日 15:04:05 MST", "\xff2006-01-02T15:04:05Z07:00"}
 
 var fieldNameChoices = []string{"", "f", "a b", "q\"k", "\xff", "msg\n", "é", "level", "message", "time", "error"}
 
